@@ -199,6 +199,8 @@ def _situation(att, p, p2, bad, env):
         pair = _block_nodes(c, 2)
         if isinstance(pair[0], LoopIR.Alloc) and isinstance(pair[1], LoopIR.WindowStmt) and pair[0].name in names_read([pair[1].rhs]):
             return "allocation-moved-after-window-of-it"
+        if isinstance(pair[0], LoopIR.Alloc) and pair[0].name in (names_read([pair[1]]) | names_written([pair[1]])):
+            return "allocation-moved-after-statement-that-mentions-it-without-effect"
     if op == "lift_scope":
         import exo.API_cursors as C
         par = c.parent()
@@ -277,12 +279,18 @@ def _situation(att, p, p2, bad, env):
                 child, cur = cur, cur.parent()
         if "assertFail" in bad and any(isinstance(x, LoopIR.If) and x.orelse for x in blk):
             return "path-condition-taken-from-sibling-if-orelse"
-        prev = c.prev()
-        while not isinstance(prev, C.InvalidCursor):
-            pn = prev._impl._node
-            if isinstance(pn, LoopIR.If) and pn.orelse and "assertFail" in bad:
-                return "path-condition-taken-from-sibling-if-orelse"
-            prev = prev.prev()
+        # get_env_preds collects the (negated) condition of EVERY `if` it walks past, with or without else branch,
+        # also when the `if` is a preceding sibling (of the block or of one of its ancestors) rather than an ancestor
+        cur = c
+        while "assertFail" in bad and not isinstance(cur, C.InvalidCursor) and cur._impl._path:
+            prev = cur.prev()
+            while not isinstance(prev, C.InvalidCursor):
+                if isinstance(prev._impl._node, LoopIR.If):
+                    return "path-condition-taken-from-sibling-if-orelse"
+                prev = prev.prev()
+            cur = cur.parent()
+            if not isinstance(cur, (C.ForCursor, C.IfCursor)):
+                break
     if op == "inline" and isinstance(n, LoopIR.Call):
         if any(isinstance(x, LoopIR.ReadConfig) for ar in n.args for x in walk(ar)) and cfg_writes(n.f.body):
             return "config-reading-actual-substituted-after-callee-write"
